@@ -170,6 +170,20 @@ Definition sybyl_spec_okb : bool :=
                                 match set_tok (u8 k) with Some a' => triple_eqb a' a | None => false end
                     | None => false
                     end) sybyl_spec.
+(* writer and reader look at the current state only: an atom / bond that already produced a token and is then
+   re-assigned answers like a fresh one (no memoisation), and re-typing a bond with a token it was given before acts *)
+Fixpoint optN_list_eqb (a b : list (option N)) : bool :=
+  match a, b with
+  | [], [] => true
+  | Some x :: a', Some y :: b' => (x =? y) && optN_list_eqb a' b'
+  | None :: a', None :: b' => optN_list_eqb a' b'
+  | _, _ => false
+  end.
+Fixpoint N_list_eqb (a b : list N) : bool :=
+  match a, b with [], [] => true | x :: a', y :: b' => (x =? y) && N_list_eqb a' b' | _, _ => false end.
+Definition stateless_okb : bool :=
+  N_list_eqb get_after (seqN (lenN tokens)) && N_list_eqb bond_get_after bond_get && optN_list_eqb bond_set_after bond_set.
+
 (* a fixed-point failure, for the search when types_okb is false *)
 Definition triple_failures (chk : triple -> bool) : list triple :=
   flat_map (fun e => flat_map (fun t => flat_map (fun g => if chk (e, t, g) then [] else [(e, t, g)])
